@@ -154,8 +154,8 @@ Proof.
 Qed.
 
 (* the shape of every encoder output, with the facts the other theorems need *)
-Theorem encode_segwit_shape net v prog :
-  0 <= v <= 16 -> bytes_ok prog -> (2 <= length prog <= 40)%nat ->
+Theorem encode_segwit_shape32 net v prog :
+  0 <= v < 32 -> bytes_ok prog -> (2 <= length prog <= 40)%nat ->
   (0 <= net <= 3) ->
   exists hrp g chk,
     prefix_of net = Ok hrp /\ known_hrp hrp /\
@@ -204,13 +204,35 @@ Proof.
     unfold zlen in SL. lia.
 Qed.
 
-Theorem segwit_roundtrip net v prog :
-  0 <= v <= 16 -> bytes_ok prog -> (2 <= length prog <= 40)%nat -> 0 <= net <= 3 ->
+(* the version range of the published statements *)
+Theorem encode_segwit_shape net v prog :
+  0 <= v <= 16 -> bytes_ok prog -> (2 <= length prog <= 40)%nat ->
+  (0 <= net <= 3) ->
+  exists hrp g chk,
+    prefix_of net = Ok hrp /\ known_hrp hrp /\
+    group_32 prog = Ok g /\ Forall sym5 (v :: g ++ chk) /\ length chk = 6%nat /\
+    encode_bech32_checksum (witness_program v prog) net = Ok (hrp ++ [49] ++ map b32c (v :: g ++ chk)) /\
+    bech32_polymod (hrp_expand hrp ++ (v :: g ++ chk)) = const_of v /\
+    (length (v :: g ++ chk) <= 90)%nat.
+Proof. intros Hv. apply encode_segwit_shape32. lia. Qed.
+
+(* the padding test of decode_bech32 (fix cfb8181) passes on zero padding of p < 5 bits *)
+Lemma pad_check_ok x p : 0 <= p < 5 ->
+  (4 <? p) || negb (Z.land (x * 2 ^ p) (Z.shiftl 1 p - 1) =? 0) = false.
+Proof.
+  intros Hp. destruct (4 <? p) eqn:E; [apply Z.ltb_lt in E; lia|]. cbn [orb].
+  rewrite Z.sub_1_r. change (Z.pred (Z.shiftl 1 p)) with (Z.ones p).
+  rewrite Z.land_ones by lia. rewrite Z.mod_mul by (apply Z.pow_nonzero; lia). reflexivity.
+Qed.
+
+(* every version symbol 0..31 (the encoder and the decoder do not restrict it to 0..16) *)
+Theorem segwit_roundtrip32 net v prog :
+  0 <= v < 32 -> bytes_ok prog -> (2 <= length prog <= 40)%nat -> 0 <= net <= 3 ->
   exists addr, encode_bech32_checksum (witness_program v prog) net = Ok addr /\
                decode_bech32 addr = Ok (net_back net, v, prog).
 Proof.
   intros Hv HB HL Hnet.
-  destruct (encode_segwit_shape net v prog Hv HB HL Hnet)
+  destruct (encode_segwit_shape32 net v prog Hv HB HL Hnet)
     as [hrp [g [chk [EP [HK [EG [FA [LC [EE [PV _]]]]]]]]]].
   eexists. split; [exact EE|].
   rewrite (decode_split hrp _ HK). rewrite (b32c_not_one _ FA).
@@ -231,7 +253,8 @@ Proof.
     replace ((8 * zlen prog + p) mod 8) with p
       by (rewrite Z.add_comm, Z.mul_comm, Z.mod_add, Z.mod_small; lia).
     rewrite number_of_val, SV, Z.shiftr_div_pow2, Z.div_mul by (try lia; apply Z.pow_nonzero; lia).
-    destruct (zlen prog <? 0) eqn:E1; [unfold zlen in E1; lia|].
+    rewrite (pad_check_ok (val 256 prog) p Hp).
+    destruct (zlen prog <? 0) eqn:E1; [apply Z.ltb_lt in E1; unfold zlen in E1; lia|].
     unfold zlen. rewrite Nat2Z.id.
     rewrite <- from_be_val.
     unfold int_to_be.
@@ -243,6 +266,12 @@ Proof.
     reflexivity. }
   rewrite BODY. destruct (beq hrp hrp_bcrt); reflexivity.
 Qed.
+
+Theorem segwit_roundtrip net v prog :
+  0 <= v <= 16 -> bytes_ok prog -> (2 <= length prog <= 40)%nat -> 0 <= net <= 3 ->
+  exists addr, encode_bech32_checksum (witness_program v prog) net = Ok addr /\
+               decode_bech32 addr = Ok (net_back net, v, prog).
+Proof. intros Hv. apply segwit_roundtrip32. lia. Qed.
 
 (* constant selection: the address verifies against 1 exactly for version 0 and against
    0x2bc830a3 exactly for versions 1..16 *)
